@@ -76,9 +76,11 @@ def build(inst, cfg):
     P = matrix([Pst[i][j] for j in range(n) for i in range(n)], (n, n), 'd')
     G = cvx.from_cols(Gc, N)
     A = matrix([inst['A'][i][j] for j in range(n) for i in range(p)], (p, n), 'd') if p else matrix(0.0, (0, n))
-    if cfg.get('storage') == 'sparse':
+    if cfg.get('storageP', cfg.get('storage')) == 'sparse':
         P = sparse(P)
+    if cfg.get('storageG', cfg.get('storage')) == 'sparse':
         G = sparse(G)
+    if cfg.get('storageA', cfg.get('storage')) == 'sparse':
         A = sparse(A) if p else spmatrix([], [], [], (0, n), 'd')
     return {'P': P, 'q': cvx.dmat(inst['q']), 'G': G, 'h': cvx.dmat(h), 'A': A, 'b': cvx.dmat(inst['b']),
             'dims': {'l': d['l'], 'q': list(d['q']), 's': list(d['s'])}}
